@@ -53,3 +53,23 @@ Example C13_nonvacuous :
    stop_at N 3 4 [f 5; f 1; f 2; f 3], stop_at N 3 4 [f 1; f 3; f 2; f 4])%Z
   = (true, false, false, true, false).
 Proof. vm_compute. reflexivity. Qed.
+
+(* A NaN training loss is no way of stopping early: the mini-batch in which a sample's loss is NaN panics
+   (nothing is returned, no shortened history), and every mini-batch that returns has seen no NaN loss. *)
+Theorem C13_nan_training_loss_aborts :
+  forall (N : Num) (pmap : pmap_t) (S X G : Type) (sample : S -> X -> res (G * T N))
+         (gadd : G -> G -> res G) (step : Z -> S -> G -> res S) epoch (s : S) (group : list X) rs,
+    sequence (pmap _ _ (sample s) group) = Ok rs ->
+    existsb (fun r => nisnan N (snd r)) rs = true ->
+    exists c, run_batch N pmap sample gadd step epoch s group = Panic c.
+Proof. exact run_batch_nan_aborts. Qed.
+Print Assumptions C13_nan_training_loss_aborts.
+
+Theorem C13_returning_batch_saw_no_nan :
+  forall (N : Num) (pmap : pmap_t) (S X G : Type) (sample : S -> X -> res (G * T N))
+         (gadd : G -> G -> res G) (step : Z -> S -> G -> res S) epoch (s s' : S) (group : list X) l,
+    run_batch N pmap sample gadd step epoch s group = Ok (s', l) ->
+    exists rs, sequence (pmap _ _ (sample s) group) = Ok rs /\
+               forallb (fun r => negb (nisnan N (snd r))) rs = true.
+Proof. exact run_batch_ok_no_nan. Qed.
+Print Assumptions C13_returning_batch_saw_no_nan.
